@@ -18,7 +18,7 @@ RULE = ("modules of documentable items of every kind (nesting <=3, optional @mod
         "doc's unique marker occurs nowhere else. Non-trivial: a doc with >=2 lines and one of {line starting with "
         "'#','[',']', leading spaces, non-ASCII, tab in the block indentation, nesting depth>=1, empty line}; "
         "distinct by SHA-1 of the case")
-RULE_MORE = "doccomments on implementing definitions; body lines repeating the text of the opening line ('@module ...', '#[[['); 4 (thorough 32) modules of hundreds of items per run (item list tiled 25..45 times)."
+RULE_MORE = "doccomments on implementing definitions; body lines repeating the text of the opening line ('@module ...', '#[[['); 4 (thorough 32) modules of hundreds of items per run (item list tiled 25..45 times). Later: strip patterns drawn; ruler lines; the first declared parameter placed in doc text."
 ASSUMPTIONS = ["sources are UTF-8 without BOM", "a whitespace-only output line stands for a blank doc line",
                "the entry that owns a doccomment is located with the reference model validated by C02"]
 BUDGET = {"quick": {"shards": 4, "examples": 350}, "thorough": {"shards": 16, "examples": 5000}}
